@@ -336,6 +336,39 @@ func c17Run(w *W) {
 			}
 		}
 	}
+	// longer sentences: the alias names at every kind of position of the compound commands (patterns of case items,
+	// for words, redirection targets and function names are never replaced; the command after ')' / do / then is)
+	var one []map[string]string
+	for _, v := range c17Values {
+		one = append(one, map[string]string{"x": v})
+	}
+	one = append(one, map[string]string{"x": "y ", "y": "a"}, map[string]string{"x": "a ", "y": "b c"}, map[string]string{"y": "b c"})
+	for _, t := range one {
+		for _, texts := range [][]string{
+			{"case", "x", "in", "x", ")", "x", ";;", "esac"}, {"case", "x", "in", "(", "x", ")", "x", ";;", "x", "|", "y", ")", "y", ";;", "esac"}, {"case", "y", "in", "y", ")", ";;", "esac"},
+			{"for", "x", "in", "x", "y", ";", "do", "x", ";", "done"}, {"if", "x", ";", "then", "x", "y", ";", "else", "y", ";", "fi"}, {"while", "x", ";", "do", "y", ";", "done"},
+			{"{", "x", ";", "}", ">", "x"}, {"(", "x", ")", "|", "y"}, {"a", "&&", "x", "||", "y"}, {"x", "(", ")", "{", "x", ";", "}"}, {"a", ">", "x", "y"}, {"x=1", "x", "y"},
+		} {
+			if !w.Mine() || w.TimeUp() {
+				continue
+			}
+			ss := syms(append(append([]string{}, texts...), "\n")...)
+			r := render(ss)
+			c := &c17Case{Aliases: t, Syms: symTexts(ss), Src: r.src}
+			w.Announce(tableString(t) + "| " + r.src)
+			w.Count("states", 1)
+			w.Count("evaluations", 1)
+			w.Count("compound_sentences", 1)
+			w.Count("traces_validated_against_impl", 1)
+			d := c17Judge(c, ss)
+			if c.Unfold != c.Src {
+				w.Count("distinct_nontrivial", 1)
+			}
+			if d != "" {
+				w.Violation("", *c, fmt.Sprintf("aliases {%s} source %q: %s", tableString(t), r.src, d))
+			}
+		}
+	}
 	c17SubstRun(w, tables)
 	c17TextRun(w)
 }
